@@ -185,7 +185,17 @@ def replay_program(case) -> dict:
             elif op["via"] == "quat":
                 out = engine.api(recv.rotate_by_quaternion, W.as_quat()[None, :], copy=copy)
             else:
-                out = engine.api(recv.rotate_by_rotvec, W.as_rotvec()[None, :], copy=copy)
+                # the same world rotation as a rotation vector or as Euler angles (both axis conventions, degrees or radians)
+                form = (step + 2 * len(case["prog"]) + int(copy)) % 5
+                desc["form"] = ("rotvec", "euler_zyx_deg", "euler_xyz_rad", "euler_xyz_deg", "euler_zyx_rad")[form]
+                if form == 0:
+                    out = engine.api(recv.rotate_by_rotvec, W.as_rotvec()[None, :], copy=copy)
+                elif form in (1, 4):
+                    deg = form == 1
+                    out = engine.api(recv.rotate_by_euler_angle, W.as_euler("ZXZ", degrees=deg)[None, :], seq="ZXZ", degrees=deg, order="zyx", copy=copy)
+                else:
+                    deg = form == 3
+                    out = engine.api(recv.rotate_by_euler_angle, W.as_euler("XZX", degrees=deg)[::-1][None, :], seq="ZXZ", degrees=deg, order="xyz", copy=copy)
         elif name == "translate":
             out = engine.api(recv.translate, np.array(op["t"], dtype=float), copy=copy)
         else:
